@@ -302,6 +302,28 @@ theorem seqno_fresh (c n : Nat) : (nextSeqnos c n).Pairwise (· < ·) ∧ (nextS
       exact ⟨fun v hv => nextSeqnos_gt (c + 1) n v hv, ih (c + 1)⟩
   exact ⟨hp, hp.imp (fun h => Nat.ne_of_lt h)⟩
 
+/-- the sequence numbers `sendAll` assigns are those of `nextSeqnos`, whatever the publish
+    outcomes are. -/
+theorem sendAll_seqs (c : Nat) (mask : List Bool) :
+    (sendAll c mask).map (·.1) = nextSeqnos c mask.length := by
+  induction mask generalizing c with
+  | nil => simp [sendAll, nextSeqnos]
+  | cons b rest ih => simp [sendAll, nextSeqnos, ih]
+
+/-- **C16, fresh sequence numbers across failed publishes**: for every pattern of transient
+    failures of the first publish, sequentially sent messages carry pairwise distinct sequence
+    numbers (the number of a Send whose publish failed is not handed to a later Send), and a Send
+    returns an error exactly when its first publish failed. -/
+theorem sendAll_fresh (c : Nat) (mask : List Bool) :
+    ((sendAll c mask).map (·.1)).Nodup ∧ (sendAll c mask).map (·.2) = mask := by
+  constructor
+  · rw [sendAll_seqs]; exact (seqno_fresh c mask.length).2
+  · induction mask generalizing c with
+    | nil => simp [sendAll]
+    | cons b rest ih => simp [sendAll, ih]
+
+example : sendAll 0 [true, false] = [(1, true), (2, false)] := by decide
+
 /-! ## 4. One channel, every step history -/
 
 /-- receiver invariant: the delivered list has no duplicates and only contains sent messages. -/
